@@ -54,9 +54,29 @@ Proof.
   induction ops as [|op rest IH]; intros st s I R W.
   - exists st. simpl. auto.
   - destruct W as (W1 & W2).
-    destruct (step_ok L Lpos st s op I R (wf_transfer st s op R W1)) as (st1 & E1 & I1 & R1).
+    destruct (step_ok L Lpos st s op I R (wf_transfer st s op R W1)) as (st1 & E1 & I1 & R1 & F1).
     destruct (IH st1 _ I1 R1 W2) as (st2 & E2 & I2 & R2).
     exists st2. simpl. rewrite E1. auto.
+Qed.
+
+(* FRAME over histories: an object that is the target of no operation of the history keeps its
+   record (data pointer, size, in-object array); Rel (same theorem) says its contents are unchanged *)
+Definition untouched (o : objid) (ops : list bop) : Prop :=
+  forall op, In op ops -> ~ In o (targets op).
+
+Theorem history_frame ops : forall st s o,
+  Inv st -> Rel st s -> wf_history s ops -> untouched o ops ->
+  exists st', run_ops ops st = (Ok tt, st') /\ Inv st' /\ Rel st' (fold_left spec_bop ops s) /\
+              objs st' o = objs st o.
+Proof.
+  induction ops as [|op rest IH]; intros st s o I R W U.
+  - exists st. simpl. auto.
+  - destruct W as (W1 & W2).
+    destruct (step_ok L Lpos st s op I R (wf_transfer st s op R W1)) as (st1 & E1 & I1 & R1 & F1).
+    destruct (IH st1 _ o I1 R1 W2) as (st2 & E2 & I2 & R2 & F2).
+    { intros op' Hin. apply U. right. exact Hin. }
+    exists st2. simpl. rewrite E1. split; [exact E2|]. split; [exact I2|]. split; [exact R2|].
+    rewrite F2. apply F1. apply U. left. reflexivity.
 Qed.
 
 Corollary reachable_ok ops :
@@ -122,7 +142,7 @@ Proof.
   induction pool as [|p IH]; intros k st I.
   - exists st. simpl. split; [reflexivity|]. split; [exact I|]. intros o. split; [lia|tauto].
   - simpl. destruct (objs st k) as [r|] eqn:Hk.
-    + destruct (dtor_ok L Lpos st (fun o => match objs st o with Some _ => Some Unspecified | None => None end) k I) as (st1 & E1 & I1 & R1).
+    + destruct (dtor_ok L Lpos st (fun o => match objs st o with Some _ => Some Unspecified | None => None end) k I) as (st1 & E1 & I1 & R1 & F1).
       * intros o. destruct (objs st o); exact Logic.I.
       * congruence.
       * destruct (IH (S k) st1 I1) as (st2 & E2 & I2 & F2).
@@ -225,7 +245,7 @@ Proof.
   induction ops as [|op rest IH]; intros st s pool I R W.
   - simpl. split; [constructor|]. eauto.
   - destruct W as (W1 & W2).
-    destruct (step_ok L Lpos st s op I R (wf_transfer st s op R W1)) as (st1 & E1 & I1 & R1).
+    destruct (step_ok L Lpos st s op I R (wf_transfer st s op R W1)) as (st1 & E1 & I1 & R1 & F1).
     specialize (IH st1 (spec_bop s op) pool I1 R1 W2). destruct IH as (IHa & st2 & E2 & I2 & R2).
     simpl. rewrite E1. rewrite (observe_all_ok st1 pool 0 I1).
     destruct (run_history L rest pool st1) as (more, stf) eqn:Er. simpl in *. split.
@@ -243,7 +263,7 @@ Theorem moved_from_valid st s o src :
               exists r, objs st' src = Some r /\ obj_ok L st' src r.
 Proof.
   intros I R Ho Hs.
-  destruct (assign_move_ok L Lpos st s o src I R Ho Hs) as (st' & E & I' & R').
+  destruct (assign_move_ok L Lpos st s o src I R Ho Hs) as (st' & E & I' & R' & F').
   exists st'. split; [exact E|]. split; [exact I'|].
   assert (Hl : objs st' src <> None).
   { intros Hn. apply (rel_live st' _ src R') in Hn. simpl in Hn. unfold sset, sget, upd in Hn.
@@ -252,6 +272,88 @@ Proof.
     - rewrite Nat.eqb_refl in Hn. discriminate. }
   destruct (objs st' src) as [r|] eqn:E2; [|contradiction].
   exists r. split; [reflexivity|]. apply (inv_wf _ _ I' _ _ E2).
+Qed.
+
+(* ---- copies are independent values (C04): after `buffer o(src)`, no operation that does not
+   name src among its targets changes src's record or its contents ... ---- *)
+
+(* every state satisfying Inv is related to the spec store that reads the values off the state *)
+Definition sstore_of (st : store) : sstore :=
+  fun o => match objs st o with Some r => Some (Val (contents st r)) | None => None end.
+Lemma rel_sstore_of st : Rel st (sstore_of st).
+Proof. intros o. unfold sstore_of. destruct (objs st o); reflexivity. Qed.
+
+(* one well-formed operation leaves the record and the contents of every non-target object alone *)
+Lemma step_independent st op x r :
+  Inv st -> wf_bop st op -> ~ In x (targets op) -> objs st x = Some r ->
+  exists st', run_bop L op st = (Ok tt, st') /\ Inv st' /\
+              objs st' x = Some r /\ contents st' r = contents st r.
+Proof.
+  intros I W N Hx.
+  destruct (step_ok L Lpos st (sstore_of st) op I (rel_sstore_of st) W) as (st' & E & I' & R' & F').
+  exists st'. split; [exact E|]. split; [exact I'|].
+  assert (Hx' : objs st' x = Some r) by (rewrite (F' x N); exact Hx).
+  split; [exact Hx'|].
+  apply (rel_val st' _ x r _ R' Hx'). rewrite (spec_bop_other _ _ _ N).
+  unfold sstore_of. rewrite Hx. reflexivity.
+Qed.
+
+Theorem copy_independent st s o src op :
+  Inv st -> Rel st s -> objs st o = None -> objs st src <> None ->
+  wf_sop (spec_bop s (BCopy o src)) op -> ~ In src (targets op) ->
+  exists st1 st2, ctor_copy L o src st = (Ok tt, st1) /\ run_bop L op st1 = (Ok tt, st2) /\ Inv st2 /\
+    objs st1 src = objs st src /\ objs st2 src = objs st src /\
+    (forall r, objs st src = Some r -> contents st1 r = contents st r /\ contents st2 r = contents st r) /\
+    (forall r l, objs st src = Some r -> s src = Some (Val l) -> contents st2 r = l).
+Proof.
+  intros I R Hd Hs W N.
+  destruct (ctor_copy_ok L Lpos st s o src I R Hd Hs) as (st1 & E1 & I1 & R1 & F1).
+  destruct (objs st src) as [r|] eqn:Hr; [|congruence].
+  assert (Hne : src <> o) by (intros ->; congruence).
+  assert (N1 : ~ In src [o]) by (intros [HH|[]]; apply Hne; symmetry; exact HH).
+  assert (Hr1 : objs st1 src = Some r) by (rewrite (F1 src N1); exact Hr).
+  (* the copy itself does not change the contents of src *)
+  assert (C1 : contents st1 r = contents st r).
+  { destruct (ctor_copy_ok L Lpos st (sstore_of st) o src I (rel_sstore_of st) Hd) as (st1' & E1' & _ & R1' & _).
+    - congruence.
+    - rewrite E1 in E1'. injection E1' as <-.
+      apply (rel_val st1 _ src r _ R1' Hr1). rewrite (spec_bop_other _ (BCopy o src) _ N1).
+      unfold sstore_of. rewrite Hr. reflexivity. }
+  destruct (step_independent st1 op src r I1 (wf_transfer st1 _ op R1 W) N Hr1) as (st2 & E2 & I2 & Hr2 & C2).
+  exists st1, st2. split; [exact E1|]. split; [exact E2|]. split; [exact I2|].
+  split; [exact Hr1|]. split; [exact Hr2|]. split.
+  - intros r0 H0. injection H0 as <-. split; [exact C1|]. rewrite C2. exact C1.
+  - intros r0 l H0 Hl. injection H0 as <-. rewrite C2, C1. apply (rel_val st s src r l R Hr Hl).
+Qed.
+
+(* ... and symmetrically: mutating or destroying the SOURCE (any operation that does not name the
+   copy among its targets) leaves the copy with the value the source had when it was copied *)
+Theorem copy_independent_rev st s o src op :
+  Inv st -> Rel st s -> objs st o = None -> objs st src <> None ->
+  wf_sop (spec_bop s (BCopy o src)) op -> ~ In o (targets op) ->
+  exists st1 st2 rc, ctor_copy L o src st = (Ok tt, st1) /\ run_bop L op st1 = (Ok tt, st2) /\ Inv st2 /\
+    objs st1 o = Some rc /\ objs st2 o = Some rc /\
+    (forall r, objs st src = Some r -> contents st1 rc = contents st r /\ contents st2 rc = contents st r) /\
+    (forall l, s src = Some (Val l) -> contents st2 rc = l).
+Proof.
+  intros I R Hd Hs W N.
+  destruct (ctor_copy_ok L Lpos st s o src I R Hd Hs) as (st1 & E1 & I1 & R1 & F1).
+  destruct (objs st src) as [r|] eqn:Hr; [|congruence].
+  (* the copy is live and holds the contents of src *)
+  destruct (ctor_copy_ok L Lpos st (sstore_of st) o src I (rel_sstore_of st) Hd) as (st1' & E1' & _ & R1' & _);
+    [congruence|].
+  rewrite E1 in E1'. injection E1' as <-.
+  destruct (objs st1 o) as [rc|] eqn:Hc.
+  2:{ exfalso. apply (rel_live st1 _ o R1') in Hc. simpl in Hc. unfold sset, sget in Hc.
+      rewrite upd_same in Hc. unfold sstore_of in Hc. rewrite Hr in Hc. discriminate. }
+  assert (C1 : contents st1 rc = contents st r).
+  { apply (rel_val st1 _ o rc _ R1' Hc). simpl. unfold sset, sget. rewrite upd_same.
+    unfold sstore_of. rewrite Hr. reflexivity. }
+  destruct (step_independent st1 op o rc I1 (wf_transfer st1 _ op R1 W) N Hc) as (st2 & E2 & I2 & Hc2 & C2).
+  exists st1, st2, rc. split; [exact E1|]. split; [exact E2|]. split; [exact I2|].
+  split; [exact Hc|]. split; [exact Hc2|]. split.
+  - intros r0 H0. injection H0 as <-. split; [exact C1|]. rewrite C2. exact C1.
+  - intros l Hl. rewrite C2, C1. apply (rel_val st s src r l R Hr Hl).
 Qed.
 
 End Hist.
